@@ -147,6 +147,10 @@ class FrozenDict(collections.abc.Mapping):
     def __repr__(self):
         return repr(self._d)
 
+    def __sizeof__(self):
+        # the mapping's own size is that of its storage (memory quota)
+        return object.__sizeof__(self) + sys.getsizeof(self._d)
+
 
 def memorize(collection, engine):
     if not is_iterator(collection):
